@@ -600,6 +600,36 @@ func c13JudgeItems(c *mon.Ctx, in *c13Items) {
 			}
 		}
 	}
+	// aliasing between receiver and argument: the items live in the receiver's
+	// own spare capacity (a script that is a view into a larger buffer, and
+	// data taken from the same buffer), handed over in reverse order
+	if total <= 70000 && len(items) <= 6 {
+		prefix := []byte{0x76, 0xa9}
+		buf := append([]byte{}, prefix...)
+		var views [][]byte
+		for _, it := range items {
+			off := len(buf)
+			buf = append(buf, it...)
+			views = append(views, buf[off:len(buf):len(buf)])
+		}
+		buf = append(buf, make([]byte, 16+8*len(items))...)
+		rev := make([][]byte, len(items))
+		copies := make([][]byte, len(items))
+		for i := range items {
+			rev[i] = views[len(items)-1-i]
+			copies[i] = items[len(items)-1-i]
+		}
+		wantRev := append(append([]byte{}, prefix...), refcodec.EncodeItems(copies)...)
+		scr := bscript.Script(buf[:len(prefix)])
+		var berr error
+		if c.Try("bscript.(*Script).AppendPushDataArray", func() { berr = scr.AppendPushDataArray(rev) }) {
+			if berr != nil || !bytes.Equal(scr, wantRev) {
+				c.Violationf("C13:encode:builder-differs:aliased-arguments", "AppendPushDataArray onto a script whose spare capacity holds the items themselves (lens %v, reversed): err=%v, result differs from prefix + minimal pushes of the items as they were when the call was made", in.Lens, berr)
+			} else {
+				c.Count("builders:aliased-arguments-agree")
+			}
+		}
+	}
 	var parts [][]byte
 	if !c.Try("bscript.DecodeParts", func() { parts, err = bscript.DecodeParts(enc) }) {
 		return
